@@ -984,6 +984,10 @@ def parse_tree_to_objgraph(
 
                 # cleanup
                 for m in models:
+                    # Postponed references are collected out of order
+                    m._tx_reference_resolver.pos_crossref_list.sort(
+                        key=lambda x: x.ref_pos_start
+                    )
                     _end_model_construction(m)
 
                 # final check that everything went ok
